@@ -163,7 +163,9 @@ def pack4_8_little(array: np.ndarray, packed: np.ndarray) -> None:
         packed[ii] = (array[pos + 1] << 4) | array[pos + 0]
 
 
-@njit(cache=True, fastmath=True, locals={"temp": types.f8})
+# No fastmath: it turns the division into a multiplication by the reciprocal, and
+# the mean of a constant integer block (49 x 100) then truncates to one less
+@njit(cache=True, locals={"temp": types.f8})
 def downsample_1d_mean(array: np.ndarray, factor: int) -> np.ndarray:
     """Downsample a 1D array by averaging over bins.
 
@@ -194,7 +196,7 @@ def downsample_1d_mean(array: np.ndarray, factor: int) -> np.ndarray:
     return result
 
 
-@njit(cache=True, fastmath=True, locals={"temp": types.f8})
+@njit(cache=True, locals={"temp": types.f8})
 def downsample_2d_mean_flat(
     array: np.ndarray,
     factor1: int,
@@ -246,13 +248,11 @@ def downsample_2d_mean_flat(
 downsample_1d_mean_parallel = njit(
     downsample_1d_mean.py_func,
     parallel=True,
-    fastmath=True,
     locals={"temp": types.f8},
 )
 downsample_2d_mean_parallel = njit(
     downsample_2d_mean_flat.py_func,
     parallel=True,
-    fastmath=True,
     locals={"temp": types.f8},
 )
 
